@@ -57,6 +57,11 @@ func c09FaultDrivers() []concParams {
 		add(fmt.Sprintf("cold-table-read-fault#%d-vs-two-readers", nth), "flushy/bytewise", cold, [][]string{{"get:a"}, {"get:a"}, {"iterscan"}}, f(vstor.KRead, storage.TypeTable, nth, 1, vstor.ModeFail))
 	}
 	out[len(out)-1].QB, out[len(out)-2].QB, out[len(out)-3].QB, out[len(out)-4].QB = 2, 2, 2, 2
+	// switching to read-only while a flush keeps failing (transient compaction error being retried)
+	for nth := 1; nth <= 2; nth++ {
+		add(fmt.Sprintf("flush+table-create-fault#%d-vs-readonly", nth), "flushy/bytewise", []string{"put:a"}, [][]string{{"put:a", "put:b"}, {"ro", "put:c"}, {"get:a"}}, f(vstor.KCreate, storage.TypeTable, nth, 3, vstor.ModeFail))
+		out[len(out)-1].QB = 2
+	}
 	add("compact+manifest-write-fault-vs-tr", "flushy/bytewise", []string{"put:a", "put:b"}, [][]string{{"cr"}, {"tr:+a,+b"}, {"put:c"}}, f(vstor.KWrite, storage.TypeManifest, 1, 1, vstor.ModeFail))
 	return out
 }
